@@ -479,6 +479,14 @@ func ptrBytes(off int) []byte { return []byte{0xc0 | byte(off>>8&0x3f), byte(off
 
 // genLabelWire produces wire bytes and a tag describing their shape.
 func genLabelWire(r *Rng) ([]byte, string) {
+	if r.Chance(1, 24) {
+		// TEXT, not labels: dotted ASCII host names, single or separated by commas / blanks,
+		// with or without NUL padding - what a configuration file holds and a careless
+		// sender puts on the wire; RFC 1035 reads the first letter as a length octet
+		// (seeded change C19-15: a decoder falling back to reading such text)
+		t := []string{"example.com", "corp.example.com,example.com", "a.b c.d", "example.com\x00", "host.example.org.", "www.a.de, b.fr", "x.y\x00\x00"}[r.Intn(7)]
+		return []byte(t), "ascii-text"
+	}
 	switch r.Intn(16) {
 	case 0, 1, 2:
 		// plain list of valid names
